@@ -313,12 +313,12 @@ package proxy
 //@   props C16
 //@   requires p != nil && p.connections != nil && p.cfg != nil && tableReady()
 //@   assigns *
-//@   loop 1 invariant p != nil && p.connections != nil && p.cfg != nil && tableReady()
+//@   loop 1 invariant p != nil && p.connections != nil && p.cfg != nil && tableTyped()
 //@   // every round consults the table that is installed NOW (other goroutines may install a new one while this one
 //@   // sleeps), and waits before the next round
 //@   at "p.lock.Unlock()" assert table == activeTbl()
 //@   loop 1 iteration ensures sleeps > old(sleeps)
 //@   // a connection that was shut down, or whose backend is no longer in the table, leaves the pool
-//@   loop 2 invariant p != nil && p.connections != nil && p.cfg != nil && tableReady() && table == activeTbl()
+//@   loop 2 invariant p != nil && p.connections != nil && p.cfg != nil && tableTyped() && table == activeTbl() && wfTable(table) && targetsOK(table)
 //@   loop 2 invariant forall k string :: visited(k) && hasKey(p.connections, k) ==> keyInTable(k, table) && connState(p.connections[k]) != 4
 //@   at "p.lock.Unlock()" assert forall k string :: hasKey(p.connections, k) ==> keyInTable(k, table) && connState(p.connections[k]) != 4
